@@ -49,9 +49,10 @@ import common as C
 from gen import reports as R
 
 PROPERTY = "C10"
-LEAN_MODULES = ["LccModel.Props.C10", "LccModel.Props.C10Info"]
-PROPS_FILES = ["LccModel/Props/C10.lean", "LccModel/Props/C10Info.lean"]
-NAMESPACES = {"LccModel/Props/C10.lean": "LccModel.C10", "LccModel/Props/C10Info.lean": "LccModel.C10"}
+LEAN_MODULES = ["LccModel.Props.C10", "LccModel.Props.C10Info", "LccModel.Props.C10Overlap"]
+PROPS_FILES = ["LccModel/Props/C10.lean", "LccModel/Props/C10Info.lean", "LccModel/Props/C10Overlap.lean"]
+NAMESPACES = {"LccModel/Props/C10.lean": "LccModel.C10", "LccModel/Props/C10Info.lean": "LccModel.C10",
+              "LccModel/Props/C10Overlap.lean": "LccModel.C10"}
 DRIVER = "drivers/C10.lean"
 TABLE_OPENS = ("LccModel.Saving", "LccModel.Report")
 TRUSTED_BASE = [
@@ -694,7 +695,7 @@ def sibling_names_unique(nf):
 # stream generators
 # ------------------------------------------------------------------------------------------------
 
-def interleaved_events(rep, rng, parallel):
+def interleaved_events(rep, rng, parallel, overlap_p=0.3):
     """A well-formed stream whose aggregation is `rep`.  With `parallel` the tests and sub-suites of a suite are
     run by different workers (distinct thread ids) and their events are merged in a random order — what a
     multi-threaded run delivers to the handler thread."""
@@ -705,17 +706,44 @@ def interleaved_events(rep, rng, parallel):
         return tid_counter[0]
 
     def steps(loc, res, tid):
-        ev = []
+        # OVERLAPPING WORKERS inside one result (`lcc.Thread`s started by a test / setup / teardown, each logging into a step of its
+        # own): every step gets a thread id of its own and the steps' events are merged, each step's own order kept — a step that
+        # started first may end first or last, other threads' logs (hence saves) fall between two ends
+        overlap = len(res["steps"]) >= 2 and rng.random() < overlap_p
+        blocks = []
         for st in res["steps"]:
-            ev.append({"e": "stepStart", "loc": loc, "desc": st["desc"], "tid": tid, "t": st["start"] or 1})
+            stid = new_tid() if overlap else tid
+            ev = [{"e": "stepStart", "loc": loc, "desc": st["desc"], "tid": stid, "t": st["start"] or 1}]
             for e in st["entries"]:
                 x = dict(e)
                 x["e"] = x.pop("k")
-                x.update({"loc": loc, "step": st["desc"], "tid": tid, "t": e["t"] or 1})
+                x.update({"loc": loc, "step": st["desc"], "tid": stid, "t": e["t"] or 1})
                 ev.append(x)
             if st["end"]:
-                ev.append({"e": "stepEnd", "loc": loc, "desc": st["desc"], "tid": tid, "t": st["end"]})
-        return ev
+                ev.append({"e": "stepEnd", "loc": loc, "desc": st["desc"], "tid": stid, "t": st["end"]})
+            blocks.append(ev)
+        if not overlap:
+            return [e for b in blocks for e in b]
+        out = []
+        # the workers are started one after the other (the steps keep their order in the report), then run concurrently
+        started = [b.pop(0) for b in blocks]
+        k = rng.randint(1, len(started))
+        out += started[:k]
+        pending = [b for b in blocks[:k] if b]
+        later = list(zip(started[k:], blocks[k:]))
+        while pending or later:
+            if later and (not pending or rng.random() < 0.3):
+                st0, b = later.pop(0)
+                out.append(st0)
+                if b:
+                    pending.append(b)
+                continue
+            b = rng.choice(pending)
+            n = rng.randint(1, 2)
+            out += b[:n]
+            del b[:n]
+            pending = [x for x in pending if x]
+        return out
 
     def phase(kind, path, res, tid):
         if res is None:
@@ -873,6 +901,10 @@ def gen_real_spec(rng, texts="plain"):
                 out.append(["url", "http://x/%d" % rng.randint(0, 9)])
             else:
                 out.append(["raise"])
+        if rng.random() < 0.2:
+            # two overlapping `lcc.Thread` workers, both logging (each owns a step), the main thread logging meanwhile
+            out.insert(rng.randint(0, len(out)), ["threads", [text("a%d" % i) or "a" for i in range(rng.randint(1, 3))],
+                                                  [text("b%d" % i) or "b" for i in range(rng.randint(1, 3))], rng.random() < 0.7])
         if with_info and rng.random() < 0.45:
             # the test publishes a report information (few names: reused with other values by other tests)
             out.insert(rng.randint(0, len(out)), ["info", rng.choice(INFO_NAMES), text("v%d" % rng.randint(0, 99)) or "v"])
@@ -923,6 +955,21 @@ def _build_real_suites(spec):
                     lcc.log_url(a[1], "a url")
                 elif a[0] == "info":
                     lcc.add_report_info(a[1], a[2])
+                elif a[0] == "threads":
+                    import time as _t
+                    def worker(msgs, pause):
+                        for m in msgs:
+                            lcc.log_info(m)
+                            _t.sleep(pause)
+                    ta = lcc.Thread(target=worker, args=(a[1], 0.001))
+                    tb = lcc.Thread(target=worker, args=(a[2], 0.004))
+                    ta.start()
+                    tb.start()
+                    if a[3]:
+                        _t.sleep(0.002)
+                        lcc.log_info("main thread goes on")
+                    ta.join()
+                    tb.join()
                 elif a[0] == "raise":
                     raise RuntimeError("generated failure")
         return run
@@ -1003,7 +1050,19 @@ def run_real(spec, specs, top):
     out["status_after"] = {str(k): v for k, v in obs.status_after.items()}
     # the final report of a real run is compared as it is saved (millisecond text), see above
     fin0 = next((x["final"] for x in out["sessions"] if x["final"] and "nf" in x["final"]), None)
-    out["final_report"] = fin0["nf"] if fin0 else R.nf_report(report)
+    if not fin0:
+        # no json / xml session attached (junit only): the same millisecond text is obtained by saving the final in-memory report
+        # once through the JSON backend (`round(ts, 3)` + ISO text, like the recorded event times above) — comparing
+        # `int(round(ts * 1000))` of the floats instead was off by 1 ms on some wall-clock stamps (a false alarm of the harness)
+        from lemoncheesecake.reporting.backends.json_ import JsonBackend
+        try:
+            scratch = os.path.join(top, "final-report.js")
+            JsonBackend().save_report(scratch, report)
+            fin0 = load_nf(scratch)
+            os.unlink(scratch)
+        except Exception:
+            fin0 = None
+    out["final_report"] = fin0["nf"] if fin0 and "nf" in fin0 else R.nf_report(report)
     return recorded, out
 
 
@@ -1072,6 +1131,25 @@ def _corpus_events():
 
 
 _CORPUS_EVENTS = _corpus_events()
+
+
+def _overlap_events():
+    """`Props/C10Overlap.lean: overlapDemo`: a test whose main thread (1) and two workers (2, 3) each have a step open; worker 2,
+    started first, ends first; the main thread logs (a save under at_each_log) before worker 3 ends"""
+    t0, la = 1_600_000_000_000, {"k": "test", "path": ["s", "a"]}
+    ev = [{"e": "sessionStart"}, {"e": "suiteStart", "path": ["s"], "md": _md("s")},
+          {"e": "testStart", "path": ["s", "a"], "md": _md("a")},
+          {"e": "stepStart", "loc": la, "desc": "main", "tid": 1}, {"e": "stepStart", "loc": la, "desc": "A", "tid": 2},
+          {"e": "log", "loc": la, "step": "A", "tid": 2, "level": "info", "msg": "from A"},
+          {"e": "stepStart", "loc": la, "desc": "B", "tid": 3},
+          {"e": "log", "loc": la, "step": "B", "tid": 3, "level": "info", "msg": "from B"},
+          {"e": "stepEnd", "loc": la, "desc": "A", "tid": 2},
+          {"e": "log", "loc": la, "step": "main", "tid": 1, "level": "info", "msg": "main goes on"},
+          {"e": "stepEnd", "loc": la, "desc": "B", "tid": 3}, {"e": "stepEnd", "loc": la, "desc": "main", "tid": 1},
+          {"e": "testEnd", "path": ["s", "a"]}, {"e": "suiteEnd", "path": ["s"]}, {"e": "sessionEnd"}]
+    for i, e in enumerate(ev):
+        e["t"] = t0 + 10 * i
+    return ev
 
 
 def _intern(obs):
@@ -1229,6 +1307,93 @@ def info_features(infos, copies_k):
     return f
 
 
+def overlap_features(events, copies_k):
+    """steps of several threads open at the same time inside ONE result; the one started first ending first; a save between
+    the two ends"""
+    f = set()
+    open_steps = {}        # loc key -> [(tid, k of start)]
+    waiting = []           # (loc key, tid of the later-started step still open, k of the earlier step's end)
+    for k, e in enumerate(events, 1):
+        if e["e"] == "stepStart":
+            key = json.dumps(e["loc"], sort_keys=True)
+            lst = open_steps.setdefault(key, [])
+            if lst:
+                f.add("overlapping-steps-in-one-result")
+            lst.append((e["tid"], k))
+        elif e["e"] == "stepEnd":
+            key = json.dumps(e["loc"], sort_keys=True)
+            lst = open_steps.get(key, [])
+            mine = [x for x in lst if x[0] == e["tid"]]
+            if not mine:
+                continue
+            for w in [w for w in waiting if w[0] == key and w[1] == e["tid"]]:
+                waiting.remove(w)
+                if any(w[2] <= c < k for c in copies_k):
+                    f.add("overlap:SAVE-between-the-end-of-the-first-started-step-and-the-end-of-a-later-one")
+            later = [x for x in lst if x[1] > mine[-1][1]]
+            if later:
+                f.add("overlap:first-started-step-ends-first")
+                waiting += [(key, x[0], k) for x in later]
+            lst.remove(mine[-1])
+    return sorted(f)
+
+
+def expected_step_ends(events):
+    """from the stream alone: {location key: [[description, end time or None] in start order]} — the step a thread started is
+    the one its own stepEnd ends (`active_steps[thread_id]`)"""
+    out, mine = {}, {}
+    for e in events:
+        if e["e"] == "stepStart":
+            key = json.dumps(e["loc"], sort_keys=True)
+            out.setdefault(key, []).append([e["desc"], None])
+            mine[e["tid"]] = (key, len(out[key]) - 1)
+        elif e["e"] == "stepEnd" and e["tid"] in mine:
+            key, i = mine[e["tid"]]
+            out[key][i][1] = e["t"]
+        elif e["e"] in ("testStart", "suiteSetupStart", "suiteTeardownStart", "sessionSetupStart", "sessionTeardownStart"):
+            pass
+    return out
+
+
+def nf_result_at(nf, loc):
+    k, path = loc["k"], loc.get("path")
+    if k == "ssetup":
+        return nf["setup"]
+    if k == "steardown":
+        return nf["teardown"]
+    names = path if k in ("setup", "teardown") else path[:-1]
+    lst, s = nf["suites"], None
+    for n in names:
+        s = next((x for x in lst if x["md"]["name"] == n), None)
+        if s is None:
+            return None
+        lst = s["suites"]
+    if s is None:
+        return None
+    if k in ("setup", "teardown"):
+        return s[k]
+    t = next((t for t in s["tests"] if t["md"]["name"] == path[-1]), None)
+    return None if t is None else t["res"]
+
+
+def step_end_failures(events, final_nf):
+    """every step whose end was announced by the thread that started it is shown as ended, at that time, in the final report"""
+    fails = []
+    if not sibling_names_unique(final_nf):
+        return fails
+    for key, steps in expected_step_ends(events).items():
+        res = nf_result_at(final_nf, json.loads(key))
+        if res is None or len(res["steps"]) != len(steps):
+            continue
+        for i, ((desc, end), st) in enumerate(zip(steps, res["steps"])):
+            if end is not None and st["end"] != end:
+                fails.append(C.Failure("C10/final/step-end-differs",
+                                       "step #%d %r of %s: its thread announced the end at %s, the final report shows end=%s"
+                                       % (i, desc, key, end, st["end"])))
+                return fails
+    return fails
+
+
 def gen_backends(rng):
     """the FILE backends attached to the run, in subscription order (what `--reporting json junit` / a project's
     `default_reporting_backend_names` give): any non-empty combination of json / xml / junit, any order"""
@@ -1267,6 +1432,9 @@ class Snap(C.Stream):
         {"kind": "gen", "label": "wf", "events": _CORPUS_EVENTS, "nb_threads": 1, "variant": 0, "alias": False, "every": 1,
          "every_backend": "json", "clock": [10_000 + 750 * i for i in range(40)], "backends": ["json", "xml"], "title": "Nightly run",
          "infos": [[0, "campaign", "nightly"], [4, "target", "alpha"], [9, "target", "beta"], [9, "campaign", "nightly"]]},
+        # overlapping lcc.Thread workers inside one test, the first started ending first, a save (at_each_log) before the other ends
+        {"kind": "gen", "label": "wf", "events": _overlap_events(), "nb_threads": 1, "variant": 0, "alias": False, "every": 0,
+         "every_backend": "json", "clock": [10_000 + 750 * i for i in range(40)], "backends": ["json", "xml", "junit"]},
     ]
 
     def gen(self, rng, i):
@@ -1350,6 +1518,8 @@ class Snap(C.Stream):
         events = self._events(case, obs)
         fails = check_sessions(events, obs["handled"], obs["failure"], list(obs["sessions"]), obs["status_after"], obs["final_report"],
                                lambda load: _nf(obs, load))
+        if obs.get("final_report") and obs["handled"] == len(events) and case["kind"] == "gen":
+            fails += step_end_failures(events, obs["final_report"])
         if "every" in obs:      # a handler loop of its own (scripted clock)
             fails += check_sessions(events, obs["every_handled"], obs.get("every_failure"), [obs["every"]], obs["status_after"],
                                     obs["final_report"], lambda load: _nf(obs, load))
@@ -1491,8 +1661,16 @@ class Snap(C.Stream):
             f.append("limited-run-kind=" + case["limited_kind"])
         copies_k = sorted({c["k"] for s in obs["sessions"] for c in s["copies"]})
         f += info_features(case.get("infos"), copies_k)
+        f += overlap_features(events, copies_k + sorted(c["k"] for c in obs.get("every", {}).get("copies", [])))
         if case.get("title") is not None:
             f.append("title-set")
+        if case["kind"] == "real" and any(e["e"] == "stepStart" for e in events):
+            tids = {}
+            for e in events:
+                if e["e"] == "stepStart":
+                    tids.setdefault(json.dumps(e["loc"], sort_keys=True), set()).add(e["tid"])
+            if any(len(v) >= 3 for v in tids.values()):
+                f.append("real-run:lcc.Thread-workers-with-steps-of-their-own")
         if case["kind"] == "real" and case["spec"].get("has_info"):
             f.append("real-run-calls-add_report_info")
             infos_seen = [tuple(map(tuple, _nf(obs, c["load"])["info"])) for s in obs["sessions"] for c in s["copies"] if "nf" in c["load"]]
